@@ -16,7 +16,7 @@ deriving Repr, Inhabited
 
 inductive BinOp | add | sub | mul | floordiv | mod deriving DecidableEq, Repr, Inhabited
 inductive CmpOp | eq | ne | lt | le | gt | ge deriving DecidableEq, Repr, Inhabited
-inductive Builtin | len | abs | bool | int | min | max deriving DecidableEq, Repr, Inhabited
+inductive Builtin | len | abs | bool | int | min | max | sum | any | all | tuple | list deriving DecidableEq, Repr, Inhabited
 
 inductive Expr
   | int (n : Int) | bool (b : Bool) | none | str (s : String)
@@ -91,6 +91,13 @@ def cmpop (op : CmpOp) (a b : Val) : Res Bool :=
       | .str _, .str _ => .oof | .tuple _, .tuple _ => .oof | .list _, .list _ => .oof
       | _, _ => .err
 
+/-- `sum` over ints and bools (`0 + x₁ + …`); anything else in the sequence raises -/
+def sumVals : List Val → Res Val
+  | [] => .ok (.int 0)
+  | v :: vs => match v.asInt?, sumVals vs with
+    | some x, .ok (.int t) => .ok (.int (x + t))
+    | _, _ => .err
+
 def callBuiltin (f : Builtin) (args : List Val) : Res Val :=
   match f, args with
   | .len, [.str s] => .ok (.int s.length)
@@ -107,6 +114,28 @@ def callBuiltin (f : Builtin) (args : List Val) : Res Val :=
   | .max, [a, b] => match a.asInt?, b.asInt? with
       | some x, some y => .ok (if y > x then b else a) | _, _ => .oof
   | .min, _ => .oof | .max, _ => .oof
+  | .sum, [.list vs] => sumVals vs
+  | .sum, [.tuple vs] => sumVals vs
+  | .sum, [.str s] => if s.isEmpty then .ok (.int 0) else .err
+  | .sum, [_] => .err
+  | .any, [.list vs] => .ok (.bool (vs.any Val.truthy))
+  | .any, [.tuple vs] => .ok (.bool (vs.any Val.truthy))
+  | .any, [.str s] => .ok (.bool (!s.isEmpty))
+  | .any, [_] => .err
+  | .all, [.list vs] => .ok (.bool (vs.all Val.truthy))
+  | .all, [.tuple vs] => .ok (.bool (vs.all Val.truthy))
+  | .all, [.str _] => .ok (.bool true)
+  | .all, [_] => .err
+  | .tuple, [] => .ok (.tuple [])
+  | .tuple, [.list vs] => .ok (.tuple vs)
+  | .tuple, [.tuple vs] => .ok (.tuple vs)
+  | .tuple, [.str s] => if s.isEmpty then .ok (.tuple []) else .oof
+  | .tuple, [_] => .err
+  | .list, [] => .ok (.list [])
+  | .list, [.list vs] => .ok (.list vs)
+  | .list, [.tuple vs] => .ok (.list vs)
+  | .list, [.str s] => if s.isEmpty then .ok (.list []) else .oof
+  | .list, [_] => .err
   | _, _ => .err
 
 abbrev Env := Nat → Option Val
